@@ -215,14 +215,84 @@ func SetReflect(dst reflect.Value, v fitmodel.Val) {
 			dst.Set(reflect.Zero(dst.Type()))
 			return
 		}
-		s := reflect.MakeSlice(dst.Type(), len(v.Elems), len(v.Elems))
+		// the slice gets spare capacity filled with a recognisable pattern:
+		// memory the File's owner may be using for something else (a window
+		// of a larger buffer). SpareIntact checks that it was left alone.
+		n := len(v.Elems)
+		s := reflect.MakeSlice(dst.Type(), n+spareCap, n+spareCap)
 		for i, e := range v.Elems {
 			SetReflect(s.Index(i), e)
 		}
-		dst.Set(s)
+		for i := n; i < n+spareCap; i++ {
+			setSpare(s.Index(i))
+		}
+		dst.Set(s.Slice3(0, n, n+spareCap))
 	default:
 		panic("prof.SetReflect: unsupported kind " + dst.Kind().String())
 	}
+}
+
+const spareCap = 3
+
+func setSpare(e reflect.Value) {
+	switch e.Kind() {
+	case reflect.Uint8, reflect.Uint16, reflect.Uint32, reflect.Uint64:
+		e.SetUint(0xA5A5A5A5A5A5A5A5 & (1<<uint(e.Type().Bits()) - 1))
+	case reflect.Int8, reflect.Int16, reflect.Int32, reflect.Int64:
+		e.SetInt(0x2A)
+	case reflect.Float32, reflect.Float64:
+		e.SetFloat(1234.5)
+	case reflect.String:
+		e.SetString("spare")
+	}
+}
+
+func isSpare(e reflect.Value) bool {
+	switch e.Kind() {
+	case reflect.Uint8, reflect.Uint16, reflect.Uint32, reflect.Uint64:
+		return e.Uint() == 0xA5A5A5A5A5A5A5A5&(1<<uint(e.Type().Bits())-1)
+	case reflect.Int8, reflect.Int16, reflect.Int32, reflect.Int64:
+		return e.Int() == 0x2A
+	case reflect.Float32, reflect.Float64:
+		return e.Float() == 1234.5
+	case reflect.String:
+		return e.String() == "spare"
+	}
+	return true
+}
+
+// SpareIntact checks, for every slice field of every message of a File built
+// with SetReflect, that the elements between length and capacity still hold
+// the pattern they were given. It returns "" or a description of the first
+// field whose spare capacity was written to.
+func SpareIntact(f *fit.File) string {
+	check := func(msg reflect.Value) string {
+		msg = reflect.Indirect(msg)
+		if !msg.IsValid() {
+			return ""
+		}
+		for i := 0; i < msg.NumField(); i++ {
+			fv := msg.Field(i)
+			if fv.Kind() != reflect.Slice || fv.IsNil() || fv.Cap() == fv.Len() {
+				continue
+			}
+			full := fv.Slice3(0, fv.Cap(), fv.Cap())
+			for j := fv.Len(); j < fv.Cap(); j++ {
+				if !isSpare(full.Index(j)) {
+					return fmt.Sprintf("%s.%s has %d elements; element %d, beyond its length (spare capacity), was overwritten with %v", msg.Type().Name(), msg.Type().Field(i).Name, fv.Len(), j, full.Index(j).Interface())
+				}
+			}
+		}
+		return ""
+	}
+	for _, s := range append(FileSlots(), Slots(f.Type())...) {
+		for _, m := range SlotMsgs(f, s) {
+			if msg := check(m); msg != "" {
+				return msg
+			}
+		}
+	}
+	return ""
 }
 
 // MsgVals returns the neutral values of all fields of a message struct (or
